@@ -82,9 +82,9 @@ pub fn run(s: &mut Session, ctx: &Ctx) {
     // ---- compositing ----
     for i in 0..n {
         let (r1, g1, b1) = gen::rgb8(&mut rng);
-        let bd = Color::from_rgba(r1, g1, b1, alpha_gen(&mut rng));
+        let bd = Color::from_rgba(r1, g1, b1, if i % 16 == 0 { 0.0 } else { alpha_gen(&mut rng) });
         let src = match i % 5 {
-            0 => Color::from_rgba(r1, g1, b1, alpha_gen(&mut rng)), // same colour
+            0 => Color::from_rgba(r1, g1, b1, if i % 16 == 0 { 0.0 } else { alpha_gen(&mut rng) }), // same colour
             1 => {
                 let (r, g, b) = gen::rgb8(&mut rng);
                 Color::from_rgba(r, g, b, 1.0) // opaque source
@@ -106,6 +106,13 @@ pub fn run(s: &mut Session, ctx: &Ctx) {
         let (b, sc, o) = (bd.to_rgba(), src.to_rgba(), out.to_rgba());
         let ao = sc.alpha + b.alpha * (1.0 - sc.alpha);
         s.check((o.alpha - ao).abs() <= 1e-12, "composite-alpha", "Color::composite", inp, || format!("alpha {:?}, expected {:?}", o.alpha, ao));
+        if ao == 0.0 {
+            // both fully transparent: no average is defined, but the result still lies between the
+            // inputs, and the same colour stays that colour
+            for (name, cs, cb, co) in [("r", sc.r, b.r, o.r), ("g", sc.g, b.g, o.g), ("b", sc.b, b.b, o.b)] {
+                s.check(between(co, cs, cb), "composite-between", "Color::composite", inp, || format!("channel {} = {} not between {} and {}", name, co, cs, cb));
+            }
+        }
         if ao > 0.0 {
             for (name, cs, cb, co) in [("r", sc.r, b.r, o.r), ("g", sc.g, b.g, o.g), ("b", sc.b, b.b, o.b)] {
                 let avg = (cs as f64 * sc.alpha + cb as f64 * b.alpha * (1.0 - sc.alpha)) / ao;
